@@ -6,6 +6,24 @@ package verifrt
 // C19 and the conformance checks, scheduling point for C16). It must only be changed while no instrumented code runs.
 var Hook func(id int)
 
+// Carry coverage (build variant "carrycov"): CovHit0[id] / CovHit1[id] become 1 once the carry or borrow bit with
+// that id has been seen with value 0 / 1. Concurrent writers only ever store the same value.
+var CovHit0, CovHit1 []uint32
+
+// Cov is the call inserted after every bits.Add64 / bits.Sub64 of the Fiat files in the carrycov variant.
+func Cov(id int, v uint64) {
+	if v == 0 {
+		CovHit0[id] = 1
+	} else {
+		CovHit1[id] = 1
+	}
+}
+
+func init() {
+	CovHit0 = make([]uint32, len(CovNames))
+	CovHit1 = make([]uint32, len(CovNames))
+}
+
 // Enter is the call inserted at the start of every function of the three packages.
 func Enter(id int) {
 	if h := Hook; h != nil {
